@@ -98,11 +98,17 @@ def run(ctx):
     for c, mo in zip(syn, outs):
         K, labels = c["K"], c["labels"]
         data = np.array(c["rows"], dtype=float)
-        clusters = []
-        for k in range(K):
-            mem = [i for i, x in enumerate(labels) if x == k]
-            clusters.append(types.SimpleNamespace(stacked_data_mean=data[mem].mean(axis=0), size=len(mem), member_points=mem))
-        got = float(cmx.calinski_harabasz_index(data, types.SimpleNamespace(clusters=clusters)))
+        # a real model state whose clusters carry the statistics the statistics phase would give them
+        from fast_ticc import cluster_maintenance as cm
+        from fast_ticc.containers import arguments as _arguments, model_state as _ms
+        biased = (len(labels) + K) % 2 == 0
+        ua = _arguments.UserArguments(sparsity_weight=0.1, iteration_limit=5, label_switching_cost=1.0, min_cluster_size=2,
+                                      min_meaningful_covariance=0, num_clusters=K, num_processors=1, window_size=1,
+                                      biased_covariance=biased)
+        st = _ms.ModelState.empty_model(ua, data)
+        st.point_labels = list(labels)
+        st = cm.update_all_cluster_statistics(st, data)
+        got = float(cmx.calinski_harabasz_index(data, st))
         vals = ch_values(data, labels, K)
         if vals is None:
             continue
